@@ -17,7 +17,7 @@ WIRE = frozenset(['wire'])
 READ = 'mciipm.Unblock1014.read'
 
 
-def unblock_entry(prog, with_size=True):
+def unblock_entry(prog, with_size=True, keyword=None):
     ufi = prog.func(READ)
     ci = prog.cls('mciipm.Unblock1014')
 
@@ -34,6 +34,8 @@ def unblock_entry(prog, with_size=True):
             n = it.sym_int('n', 1, None)
             it.user['n'] = n
             args = [n]
+        if keyword and args:
+            return it.call_function(ufi, [], {keyword: args[0]}, self_obj=obj)
         return it.call_function(ufi, args, {}, self_obj=obj)
     return entry
 
@@ -215,6 +217,23 @@ def check(prog, res, tier):
                         'a short read for the end of the data)', neg=[conds])]
     res.add(runs_n.judge('C05.b', 'a sized read returns fewer bytes than requested only when the wrapped file is exhausted',
                          func_where(ufi), 'output = self.buffer[:bytes_to_read]', chk_short, rule='C05.b.short'))
+
+    # ---- C05.c the same through the documented keyword of the pinned interface: read(bytes_to_read=n)
+    runs_kw = Runs(prog, unblock_entry(prog, True, keyword='bytes_to_read'), res=res)
+
+    def chk_kw(p, mode):
+        if p.outcome == 'raise':
+            exc = p.value
+            if getattr(exc, 'cls', None) is TypeError or getattr(getattr(exc, 'cls', None), '__name__', '') == 'TypeError':
+                return [definite('read(bytes_to_read=n), the keyword of the documented signature, is no longer accepted', firm=True)]
+            return []
+        if p.outcome != 'return' or not isinstance(p.value, SeqV):
+            return []
+        n = p.interp.user['n']
+        return need_ge0(p.store, n.lin - p.value.length(), 'read(bytes_to_read=n) returns more bytes than requested (the keyword is '
+                                                             'accepted but does not limit the read)')
+    res.add(runs_kw.judge('C05.c', 'read(bytes_to_read=n), by keyword, returns at most n bytes', func_where(ufi),
+                          'def read(self, bytes_to_read=0)', chk_kw, rule='C05.c.keyword'))
 
     # ---- C05.d read-all
     def chk_d(p, mode):
